@@ -237,8 +237,17 @@ fn check_pattern(ex: &crate::lexmodel::Extracted, pat: &Pat, cands: &[String], t
         if got != want {
             let kind = if pat.is_lit() { "literal" } else { "regex" };
             let dir = if want { "rejects-member" } else { "accepts-non-member" };
+            // root cause F15? the lexer agrees with the regex as regex-syntax
+            // prints a nested repetition (`(?:a{2})?` -> `a{2}?`)
+            let f15 = match pat {
+                Pat::Re(r) => crate::lexmodel::printed_if_nested(r)
+                    .and_then(|p| full_matcher(&p))
+                    .map_or(false, |m| m.full_match(w) == got),
+                Pat::Lit(_) => false,
+            };
+            let sig = if f15 { "C10/regex/nested-repetition-rendering".to_string() } else { format!("C10/{kind}/{dir}") };
             tl.violation(
-                &format!("C10/{kind}/{dir}"),
+                &sig,
                 &format!(
                     "terminal {name} (rendered as {rendered:?}): candidate {w:?} should {}be matched in full, lexer gave {detail}",
                     if want { "" } else { "not " }
